@@ -70,7 +70,7 @@ def system_strategy():
                            st.sampled_from([1.0, 1.0, 0.5, 0.9])),
                  min_size=5, max_size=5),
         st.lists(st.integers(-100, 100).map(float), min_size=5, max_size=5),
-        st.sampled_from(['plain', 'sumproduct', 'sum']))
+        st.sampled_from(['plain', 'sumproduct', 'sum', 'offset', 'indirect']))
 
 
 def system_cells(system):
@@ -86,6 +86,10 @@ def system_cells(system):
     for i in range(n):
         if system['form'] == 'plain' or n == 1:
             expr = '+'.join(f'{cols[i]}{j + 1}*A{j + 1}' for j in range(n))
+        elif system['form'] in ('offset', 'indirect'):
+            # the cycle passes through cells whose whole result is a
+            # computed reference to a cycle cell
+            expr = '+'.join(f'{cols[i]}{j + 1}*J{j + 1}' for j in range(n))
         elif system['form'] == 'sumproduct':
             expr = f'SUMPRODUCT(A1:A{n},{cols[i]}1:{cols[i]}{n})'
         else:
@@ -93,6 +97,10 @@ def system_cells(system):
                 f'{cols[i]}{j + 1}*A{j + 1}' for j in range(n)) + \
                 f')+0*SUM(A1:A{n})'
         cells[f'A{i + 1}'] = f'=VCOUNT({i},B{i + 1}+{expr})'
+        if system['form'] == 'offset':
+            cells[f'J{i + 1}'] = f'=OFFSET(A1,{i},0)'
+        elif system['form'] == 'indirect':
+            cells[f'J{i + 1}'] = f'=INDIRECT("A{i + 1}")'
     return cells
 
 
